@@ -63,7 +63,7 @@ def _spy_orders(h):
 # ------------------------------------------------------------------------------------------------
 # tactic 2
 # ------------------------------------------------------------------------------------------------
-def _tactic2(nctx, names, elims, refine):
+def _tactic2(nctx, names, elims, refine, gives_up=False):
     def c(h):
         s = S(h)
         term = s.term("t", names)
@@ -72,11 +72,17 @@ def _tactic2(nctx, names, elims, refine):
         elim = elims[h.ctx.choose(len(elims), "elim")]
         _require_conflict(s, term, elim)
         spaces = {}
-        lp = LP(h, lambda c_, A_: spaces.setdefault(len(c_.items if isinstance(c_, PList) else c_.data), ExplicitSpace(h.ctx, len(c_.items if isinstance(c_, PList) else c_.data))))
+        lp = LP(h, lambda c_, A_: spaces.setdefault(len(c_.items if isinstance(c_, PList) else c_.data), ExplicitSpace(h.ctx, len(c_.items if isinstance(c_, PList) else c_.data))), gives_up=gives_up)
         lp.install()
         orders = _spy_orders(h)
         snaps = [s.snapshot(t) for t in [term] + ctx_terms]
         out = h.call(h.I.get_func(PTL + "_tactic_2"), [term, ctx, PList([s.var(n) for n in elim], h.ctx), refine])
+        gave_up = any(c_.gave_up for c_ in lp.calls)
+        if gave_up:
+            # outside A4: an LP answered without an optimum (status 1, 4 or an untrue 3) gives no bound - the tactic declines
+            h.cover("solver_gave_up")
+            h.check("C14.tactic2.solver_gave_up.declines_with_valueerror", out.kind == "raise" and out.exc_is(h.I, ValueError), "outcome %s %s" % (out.kind, out.exc_name))
+            return
         if out.kind == "raise":
             h.check("C14.tactic2.declines_only_with_valueerror", out.exc_is(h.I, ValueError), "raised %s at %s" % (out.exc_name, out.where))
             h.cover("declined")
@@ -131,6 +137,19 @@ for _refine in (True, False):
             shards=_sh,
             weight=3,
         )(_tactic2(_nctx, V3, [["y", "z"], ["z", "y"], ["y"]], _refine))
+
+
+for _refine in (True, False):
+    contract(
+        "PolyhedralTermList._tactic_2[%s,1 context terms,solver may give up]" % ("refine" if _refine else "relax"),
+        ["C04", "C14", "C13"],
+        [PTL + "_tactic_2"],
+        "S",
+        bound="term and 1 context term over {x,y} (every support); the LP may be answered without an optimum (status 1, 4, or an untrue 3)",
+        assumes=["A4", "A5"],
+        covers=["declined", "transformed", "solver_gave_up"],
+        chain=["C01", "C02"],
+    )(_tactic2(1, V2, [["y"], ["x", "y"]], _refine, True))
 
 
 # ------------------------------------------------------------------------------------------------
